@@ -18,5 +18,6 @@ ASSUMPTIONS = ["argparse, ChainMap and ConfigParser semantics (trusted stdlib)"]
 def run(project, rep):
     rep.run(G.g_rules, project, rep)
     rep.run(G.g_r8_flags_reach_client, project, rep)
+    rep.run(G.g_r9_same_section, project, rep)
     from .. import rules_values as V
     rep.run(V.v_r8_token_tables, project, rep, modules_prefix=("ofxtools.scripts.ofxget",))
